@@ -130,12 +130,15 @@ impl Ctx {
         self.tier == Tier::Quick
     }
 
-    /// picks the quick or the thorough value
+    /// picks the quick or the thorough value; `VERIF_SCALE_DIV=<n>` divides it (used by the
+    /// sanitizer / valgrind re-runs of the same workload, which are 4-30x slower)
     pub fn scale(&self, quick: usize, thorough: usize) -> usize {
-        match self.tier {
+        let v = match self.tier {
             Tier::Quick => quick,
             Tier::Thorough => thorough,
-        }
+        };
+        let div = env_u64("VERIF_SCALE_DIV", 1).max(1) as usize;
+        (v / div).max(1)
     }
 
     pub fn case_seed(&self, stream: &str, case: u64) -> u64 {
@@ -505,6 +508,26 @@ fn evidence_path(prop: &str) -> PathBuf {
 
 /// Writes the evidence file, replay files, prints verdict lines and exits.
 pub fn finish(ctx: &Ctx, rep: Report, fin: Finish) -> ! {
+    let mut rep = rep;
+    // results of add-on runs (sanitizers, Miri, valgrind) collected by scripts/addons.sh
+    let mut addons: Option<Value> = None;
+    if let Ok(p) = std::env::var("VERIF_EXTRA_EVIDENCE") {
+        if let Ok(txt) = std::fs::read_to_string(&p) {
+            if let Ok(v) = serde_json::from_str::<Value>(&txt) {
+                if let Some(vs) = v.get("violations").and_then(|x| x.as_array()) {
+                    for x in vs {
+                        rep.cur_stream = "addon".into();
+                        rep.cur_case = 0;
+                        rep.violation(
+                            x["sig"].as_str().unwrap_or("addon:unknown").to_string(),
+                            x["detail"].clone(),
+                        );
+                    }
+                }
+                addons = Some(v);
+            }
+        }
+    }
     let known = load_known_findings();
     let mut known_hit: BTreeMap<String, (KnownFinding, u64)> = BTreeMap::new();
     let mut new_viol: BTreeMap<String, Vec<&Violation>> = BTreeMap::new();
@@ -585,6 +608,9 @@ pub fn finish(ctx: &Ctx, rep: Report, fin: Finish) -> ! {
     }
     for (k, v) in fin.extra {
         coverage.insert(k, v);
+    }
+    if let Some(a) = addons {
+        coverage.insert("addons".into(), a);
     }
     let verdict = if !new_viol.is_empty() {
         "violated"
